@@ -7,9 +7,16 @@ QcC (vm_compute) and compared with ZERO tolerance against the hand-written Galli
 same outcome constructor, every array entry, every scalar.  The Marple routines are in addition compared, exactly, with the
 least-squares model of Model/Ls.v (coq/Model/LoopIRMarple.v), and their orders 0 and 1 are theorems (coq/Proofs/LoopIRMarple0.v).
 
-For LEVINSON, CORRELATION, levup, levdown, HERMTOEP and minvar_psi the equality `run program args = model` is in addition a THEOREM for
-all inputs (coq/Proofs/LoopIR<Name>.v, table THEOREMS below): it is instantiated in the generated file whenever the regenerated program
-text equals the reference text kept in the proof file; otherwise it is not claimed and the exact evaluation decides.
+For LEVINSON, CORRELATION, levup, levdown, HERMTOEP, TOEPLITZ, arburg, minvar_psi and aryule the equality `run program args = model` is in addition a
+THEOREM for all inputs (coq/Proofs/LoopIR<Name>.v, table THEOREMS below): it is instantiated in the generated file whenever the regenerated program
+text equals the reference text kept in the proof file; otherwise the obligations are recorded as broken and the exact evaluation looks for a failing input.
+
+T6: the thin wrappers aryule, ma, ac2poly, ac2rc, poly2ac, poly2rc, ar2rc, rc2poly, rc2ac are translated too.  Their calls of LEVINSON, CORRELATION,
+rlevinson, levup, aryule, rc2poly - functions of OTHER modules of the package - are resolved syntactically through the module's imports
+(`from .levinson import LEVINSON, rlevinson`, `from spectrum.correlation import CORRELATION`, `import spectrum.yulewalker as yulewalker` +
+`yulewalker.aryule(...)`, a `from .levinson import levup` at the head of a function body; anything else is refused), the callee is translated from ITS
+module text and embedded (SCall / SCall1); keyword and omitted arguments are positions of the callee's parameter list; the hidden oracle parameters of a
+callee become hidden parameters of the caller.  Comparators: coq/Model/LoopIRWrap.v; theorem for aryule: coq/Proofs/LoopIRAryule.v.
 
 The translator is fail-closed: an `ast` node outside the recognised subset aborts the translation of that function
 (`Untranslatable`), which the tie reports through ctx.broken as "translation of <fn> failed: <node>".  Nothing is
@@ -55,10 +62,24 @@ SPECS = {
                        skip=('errors.is_positive_integer(order)', 'errors.is_positive_integer(NFFT)',
                              'A, P, k = arburg(X, order - 1)', 'psi = fft(psi, NFFT)', 'PSD = sampling / np.real(psi)',
                              'return (PSD, A, k)')),
+    # T6: the thin wrappers; their calls of LEVINSON / CORRELATION / rlevinson / levup / aryule (functions of OTHER modules of the package, resolved
+    # through the module's imports) are translated from the callee's module text and embedded ([SCall] / [SCall1])
+    'aryule': dict(module='yulewalker'),
+    'ma': dict(module='arma'),
+    'ac2poly': dict(module='linear_prediction'),
+    'ac2rc': dict(module='linear_prediction'),
+    'poly2ac': dict(module='linear_prediction'),
+    'poly2rc': dict(module='linear_prediction'),
+    'ar2rc': dict(module='linear_prediction'),
+    'rc2poly': dict(module='linear_prediction'),
+    'rc2ac': dict(module='linear_prediction'),
 }
+# oracle calls of a function when it is translated as a CALLEE (its hidden oracle parameters become hidden parameters of the caller)
+CALLEE_ORACLES = {('correlation', 'CORRELATION'): ('pylab_rms_flat',)}
+PACKAGE = 'spectrum'
 
 EXC = {'ValueError': 'ValueError', 'AssertionError': 'AssertionError', 'IndexError': 'IndexError',
-       'ZeroDivisionError': 'ZeroDivisionError'}
+       'ZeroDivisionError': 'ZeroDivisionError', 'NotImplementedError': 'NotImplementedError'}
 BINOPS = {ast.Add: 'BAdd', ast.Sub: 'BSub', ast.Mult: 'BMul', ast.Div: 'BDiv', ast.FloorDiv: 'BFloorDiv', ast.Mod: 'BMod'}
 CMPOPS = {ast.Eq: 'CEq', ast.NotEq: 'CNe', ast.Lt: 'CLt', ast.LtE: 'CLe', ast.Gt: 'CGt', ast.GtE: 'CGe'}
 
@@ -93,10 +114,138 @@ class Program:
         return hashlib.sha1(self.coq().encode()).hexdigest()[:16]
 
 
+class Loader:
+    """the module texts of the package under translation: the snapshot's files, or (self-test, scratch edits) a dict {module: source}"""
+    def __init__(self, sources=None, only=False):
+        self.sources = dict(sources or {}); self.only = only; self.trees = {}
+
+    def tree(self, module, where=None):
+        if module not in self.trees:
+            if module in self.sources:
+                src = self.sources[module]
+            elif self.only or not re.fullmatch(r'[A-Za-z_][A-Za-z0-9_]*', module):
+                raise Untranslatable(where if where is not None else module, 'module %s of the package is not available' % module)
+            else:
+                try:
+                    src, _ = snapshot_source(module)
+                except OSError:
+                    raise Untranslatable(where if where is not None else module, 'module %s.py not found in the package' % module)
+            try:
+                self.trees[module] = ast.parse(src)
+            except SyntaxError:
+                raise Untranslatable(where if where is not None else module, 'module %s.py does not parse' % module)
+        return self.trees[module]
+
+    def star_exports(self, module, where, depth=0):
+        """the names `from .<module> import *` binds (None = cannot be enumerated)"""
+        tree = self.tree(module, where)
+        mentions = [n for n in ast.walk(tree) if isinstance(n, ast.Name) and n.id == '__all__']
+        if mentions:
+            asg = [n for n in tree.body if isinstance(n, ast.Assign) and len(n.targets) == 1 and isinstance(n.targets[0], ast.Name) and n.targets[0].id == '__all__']
+            if len(mentions) == 1 and len(asg) == 1 and isinstance(asg[0].value, (ast.List, ast.Tuple)) \
+                    and all(isinstance(x, ast.Constant) and isinstance(x.value, str) for x in asg[0].value.elts):
+                return {x.value for x in asg[0].value.elts}
+            return None
+        names = module_bound_names(tree, self, where, depth)
+        return None if names is None else {n for n in names if not n.startswith('_')}
+
+    def submodule_attribute_ok(self, module, where):
+        """the attribute <package>.<module> is the submodule: nothing that the package's __init__ executes rebinds that name"""
+        names = module_bound_names(self.tree('__init__', where), self, where, 0)
+        return names is not None and module not in names
+
+
+def package_module_of(n, alias=None):
+    """the submodule M of the package that `from .M import ..` / `from <package>.M import ..` names, else None"""
+    if isinstance(n, ast.ImportFrom):
+        if n.level == 1 and n.module and '.' not in n.module:
+            return n.module
+        if n.level == 0 and n.module and n.module.startswith(PACKAGE + '.') and n.module.count('.') == 1:
+            return n.module.split('.')[1]
+    return None
+
+
+def module_bound_names(tree, loader, where, depth):
+    """every name a module's top level may bind (over-approximation; None = cannot be enumerated)"""
+    if depth > 3:
+        return None
+    names = set()
+    for n in ast.walk(tree):
+        if isinstance(n, (ast.FunctionDef, ast.AsyncFunctionDef, ast.ClassDef)):
+            names.add(n.name)
+        elif isinstance(n, ast.Name) and isinstance(n.ctx, (ast.Store, ast.Del)):
+            names.add(n.id)
+        elif isinstance(n, ast.Global):
+            names.update(n.names)
+    for n in tree.body:             # imports executed at the top level (those inside function bodies bind locals only)
+        for m in ([] if isinstance(n, (ast.FunctionDef, ast.AsyncFunctionDef, ast.ClassDef)) else ast.walk(n)):
+            if isinstance(m, ast.Import):
+                for a in m.names:
+                    names.add(a.asname or a.name.split('.')[0])
+            elif isinstance(m, ast.ImportFrom):
+                for a in m.names:
+                    if a.name != '*':
+                        names.add(a.asname or a.name)
+                        continue
+                    sub = package_module_of(m)
+                    if sub is not None:
+                        ex = loader.star_exports(sub, where, depth + 1)
+                    elif m.level == 0 and m.module and m.module.split('.')[0] != PACKAGE:
+                        try:        # a star import of a module outside the package: exactly the names Python binds
+                            ext = __import__('importlib').import_module(m.module)
+                            ex = set(getattr(ext, '__all__', [k for k in vars(ext) if not k.startswith('_')]))
+                        except Exception:
+                            ex = None
+                    else:
+                        ex = None
+                    if ex is None:
+                        return None
+                    names |= ex
+    return names
+
+
+def name_bindings(tree, name):
+    """the top-level bindings of `name` in a parsed module: (kind, node, alias), kind in def / import / star / other"""
+    out = []
+    for n in tree.body:
+        if isinstance(n, (ast.FunctionDef, ast.AsyncFunctionDef, ast.ClassDef)):
+            if n.name == name:
+                out.append(('def' if isinstance(n, ast.FunctionDef) else 'other', n, None))
+            for m in ast.walk(n):
+                if isinstance(m, ast.Global) and name in m.names:
+                    out.append(('other', m, None))
+            continue
+        for m in ast.walk(n):
+            if isinstance(m, (ast.Import, ast.ImportFrom)):
+                for a in m.names:
+                    if a.name == '*':
+                        out.append(('star', m, a))
+                    elif (a.asname or a.name.split('.')[0]) == name:
+                        out.append(('import', m, a))
+            elif isinstance(m, ast.Name) and m.id == name and isinstance(m.ctx, (ast.Store, ast.Del)):
+                out.append(('other', m, None))
+            elif isinstance(m, (ast.FunctionDef, ast.AsyncFunctionDef, ast.ClassDef)) and m.name == name:
+                out.append(('other', m, None))
+    return out
+
+
+def return_arities(fn):
+    """the set of the numbers of values of the `return`s of a function (0 = falls off the end / bare return are NOT counted: [None])"""
+    out = set()
+    for n in ast.walk(fn):
+        if isinstance(n, ast.Return):
+            out.add(len(n.value.elts) if isinstance(n.value, ast.Tuple) else 1)
+    return out
+
+
 class FnTranslator:
-    def __init__(self, modtree, fn, spec, progname, stack=()):
+    def __init__(self, modtree, fn, spec, progname, stack=(), modname=None, loader=None):
         self.fn = fn; self.spec = spec; self.progname = progname
         self.modtree = modtree; self.stack = tuple(stack)      # functions being translated around this one (calls are embedded; no recursion)
+        self.modname = modname                                 # the module of the package this function lives in (None: a stand-alone text)
+        self.loader = loader                                   # gives the other modules of the package (None: calls of other modules are refused)
+        self.local_imports = {}                                # name -> (module, function): `from .M import f` at the head of the function body
+        self.tuple_vars = {}                                   # name -> slots of the values of the tuple a call returned (T6)
         self.np_names = set(); self.logging_names = set(); self.nodes = 0
         for n in modtree.body:
             if isinstance(n, ast.Import):
@@ -141,6 +290,16 @@ class FnTranslator:
         if fn.decorator_list or a.vararg or a.kwarg or a.kwonlyargs or a.posonlyargs:
             self.fail(fn, 'unsupported signature')
         body = list(fn.body)
+        if 'skip' in spec:      # translated by REGION: the statements named verbatim in the spec are not translated (they must be present, in order)
+            todo = list(spec['skip']); kept = []
+            for s in body:
+                if todo and ast.unparse(s) == todo[0]:
+                    todo.pop(0); continue
+                kept.append(s)
+            if todo:
+                self.fail(fn, 'statement expected verbatim by the region spec not found: %r' % todo[0])
+        else:
+            kept = body
         # names assigned anywhere (locals)
         self.assigned = set()
         for n in ast.walk(fn):
@@ -151,6 +310,8 @@ class FnTranslator:
             if isinstance(n, ast.ImportFrom):
                 if n.module == 'spectrum' and [x.name for x in n.names] == ['Criteria'] and n.names[0].asname is None:
                     self.crit_class.add('Criteria')
+                elif self.head_import(n):
+                    pass
                 else:
                     self.fail(n, 'import inside the function')
             if isinstance(n, ast.Import):
@@ -159,6 +320,7 @@ class FnTranslator:
             if isinstance(n, ast.Assign) and isinstance(n.value, ast.Call) and isinstance(n.value.func, ast.Name) \
                     and n.value.func.id in self.crit_class and len(n.targets) == 1 and isinstance(n.targets[0], ast.Name):
                 self.crit_objs.add(n.targets[0].id)
+        self.find_calls(kept)
         self.find_list_vars(fn)
         # names bound to a list display / comprehension somewhere: Python lists; `+`, `*`, `+=` on them concatenate / repeat, the IR's arrays do not
         self.display_vars = {t.id for n in ast.walk(fn) if isinstance(n, ast.Assign) and isinstance(n.value, (ast.List, ast.ListComp))
@@ -180,17 +342,17 @@ class FnTranslator:
                 key = '%s(%s)@%d' % (n.func.id, n.args[0].id, len(self.oracle_params))
                 n._oracle_slot = self.new_slot(key)
                 self.oracle_params.append(key); defaults.append(None)
+        # hidden oracle parameters of the embedded callees (CORRELATION's two pylab_rms_flat results inside aryule, ...): in order of the calls
+        for c in self.calls:
+            c._hidden = []
+            for key in c._callee.oracle_params:
+                k2 = '%s.%s#%d' % (c._callee.pyname, key, len(self.oracle_params))
+                c._hidden.append(self.new_slot(k2)); self.oracle_params.append(k2); defaults.append(None)
         self.params = params + self.oracle_params
+        self.oracle_params_only = list(self.oracle_params)
         self.check_aliasing(body, set(params))
         # body
         if 'skip' in spec:
-            todo = list(spec['skip']); kept = []
-            for s in body:
-                if todo and ast.unparse(s) == todo[0]:
-                    todo.pop(0); continue
-                kept.append(s)
-            if todo:
-                self.fail(fn, 'statement expected verbatim by the region spec not found: %r' % todo[0])
             stm = self.block(kept, top=True)
             res = self.lookup(spec['result'])
             if res is None:
@@ -198,7 +360,154 @@ class FnTranslator:
             stm = self.seq([stm, 'SReturn [EVar %d]' % res])
         else:
             stm = self.block(body, top=True)
-        return Program(self.progname, fn.name, self.params, defaults, dict(self.slots), stm, self.nodes)
+        prog = Program(self.progname, fn.name, self.params, defaults, dict(self.slots), stm, self.nodes)
+        prog.oracle_params = list(self.oracle_params); prog.nexplicit = len(params)
+        prog.param_names = list(params)
+        # positions of the returned tuple that may hold a 2-D array (a caller may bind them only to names it never reads)
+        prog.matrix_rets = {i for n in ast.walk(fn) if isinstance(n, ast.Return) and n.value is not None
+                            for i, el in enumerate(n.value.elts if isinstance(n.value, ast.Tuple) else [n.value])
+                            if isinstance(el, ast.Name) and el.id in self.matrix_vars}
+        prog.arities = return_arities(fn)
+        return prog
+
+    # ---------------------------------------------------------------- calls of other functions of the package (T5: same module; T6: any module)
+    def head_import(self, n):
+        """`from .M import f [as g], ..` / `from <package>.M import f` as a statement at the HEAD of the function body (only a docstring or
+        other such imports before it): the names are locals bound to functions of module M for the whole body.  Registers them."""
+        M = package_module_of(n)
+        if M is None or self.loader is None:
+            return False
+        head = []
+        for s in self.fn.body:
+            if isinstance(s, ast.Expr) and isinstance(s.value, ast.Constant) and isinstance(s.value.value, str):
+                continue
+            if isinstance(s, ast.ImportFrom):
+                head.append(s); continue
+            break
+        if not any(s is n for s in head):
+            return False
+        argnames = {x.arg for x in self.fn.args.args} | set(self.spec.get('params', ()))
+        for a in n.names:
+            g = a.asname or a.name
+            if a.name == '*' or g in self.local_imports or g in argnames or g in EXC or g in self.crit_class:
+                return False
+            # the imported name must be a function of M (else ImportError at run time) that M never rebinds
+            find_function(self.loader.tree(M, n), a.name, n, modname=M + '.py')
+            self.local_imports[g] = (M, a.name)
+        return True
+
+    def resolve_callee(self, f, where):
+        """(module, its tree, FunctionDef) if the call target `f` / `m.f` names a function of the package, resolved syntactically through the
+        imports; None if it is not a package function at all (builtin, numpy, method ...: the expression translator decides)"""
+        argnames = {x.arg for x in self.fn.args.args} | set(self.spec.get('params', ()))
+        if isinstance(f, ast.Name):
+            name = f.id
+            if name in self.local_imports:
+                if name in self.assigned:
+                    self.fail(where, 'a name imported inside the function is also assigned')
+                M, orig = self.local_imports[name]
+                tree = self.loader.tree(M, where)
+                return M, tree, find_function(tree, orig, where, modname=M + '.py')
+            if name in self.assigned or name in argnames or name in self.oracle_fns or name in self.crit_class or name in self.crit_objs or name in EXC:
+                return None
+            if any(isinstance(n, ast.FunctionDef) and n.name == name for n in self.modtree.body):
+                return self.modname, self.modtree, find_function(self.modtree, name, where)
+            b = name_bindings(self.modtree, name)
+            if not [x for x in b if x[0] != 'star']:
+                return None
+            if len(b) != 1 or b[0][0] != 'import' or self.loader is None:
+                self.fail(where, 'the callee %s is not bound exactly once, by an import of a function of the package' % name)
+            M = package_module_of(b[0][1])
+            if M is None:
+                return None          # imported from elsewhere (scipy, numpy.fft ...): not a package function
+            tree = self.loader.tree(M, where)
+            return M, tree, find_function(tree, b[0][2].name, where, modname=M + '.py')
+        if isinstance(f, ast.Attribute) and isinstance(f.value, ast.Name):
+            m = f.value.id
+            if m in self.assigned or m in argnames or m in self.np_names or m in self.logging_names or m in self.local_imports:
+                return None
+            b = name_bindings(self.modtree, m)
+            imp = [x for x in b if x[0] == 'import']
+            M = None
+            for kind, node, a in imp:
+                if isinstance(node, ast.Import) and a.name.startswith(PACKAGE + '.') and a.name.count('.') == 1 and a.asname == m:
+                    M = a.name.split('.')[1]                      # import <package>.M as m
+                elif isinstance(node, ast.ImportFrom) and ((node.level == 0 and node.module == PACKAGE) or (node.level == 1 and node.module is None)):
+                    M = a.name                                    # from <package> import M [as m]  /  from . import M [as m]
+            if M is None:
+                return None
+            if len(b) != 1 or self.loader is None:
+                self.fail(where, 'the module name %s is not bound exactly once' % m)
+            if not self.loader.submodule_attribute_ok(M, where):
+                self.fail(where, 'the attribute %s.%s of the package may be rebound by its __init__' % (PACKAGE, M))
+            tree = self.loader.tree(M, where)
+            return M, tree, find_function(tree, f.attr, where, modname=M + '.py')
+        return None
+
+    def find_calls(self, stmts):
+        """the calls of package functions, in source order: each callee is translated by this translator (its own slots, its own aliasing
+        pass) BEFORE the body, because its hidden oracle parameters become hidden parameters of this program.  A call may only be the whole
+        right-hand side of an assignment statement."""
+        self.calls = []
+        fn = self.fn
+        allnodes = [n for s in stmts for n in ast.walk(s)]
+        for n in allnodes:
+            for at in ('_callee', '_hidden', '_tuple_index'):
+                if hasattr(n, at):
+                    delattr(n, at)
+        cand = sorted((n for n in allnodes if isinstance(n, ast.Call)), key=lambda n: (n.lineno, n.col_offset))
+        rhs = {id(n.value) for n in allnodes if isinstance(n, ast.Assign) and len(n.targets) == 1}
+        for c in cand:
+            r = self.resolve_callee(c.func, c)
+            if r is None:
+                continue
+            if id(c) not in rhs:
+                self.fail(c, 'a call of a function of the package is not the whole right-hand side of an assignment')
+            M, tree, fndef = r
+            if fndef.name == self.fn.name or fndef.name in self.stack:
+                self.fail(c, 'recursive call')
+            spec = {}
+            if (M, fndef.name) in CALLEE_ORACLES:
+                spec = {'oracles': CALLEE_ORACLES[(M, fndef.name)]}
+            sub = FnTranslator(tree, fndef, spec, fndef.name, stack=self.stack + (self.fn.name,), modname=M, loader=self.loader)
+            c._callee = sub.translate()
+            self.calls.append(c)
+        # names bound to the TUPLE a call returns (`results = rlevinson(poly, efinal)` ... `results[0]`): locals bound only by such calls (all of
+        # the same arity n >= 2) and read only as `name[<int literal in -n..n-1>]`; the n values live in n slots
+        for n in allnodes:
+            if isinstance(n, ast.Assign) and len(n.targets) == 1 and isinstance(n.targets[0], ast.Name) and hasattr(n.value, '_callee'):
+                ar = n.value._callee.arities
+                if len(ar) == 1 and min(ar) >= 2:
+                    self.tuple_vars.setdefault(n.targets[0].id, set()).add(min(ar))
+                elif ar != {1}:
+                    self.fail(n, 'the callee does not return the same number of values on every path')
+        if not self.tuple_vars:
+            return
+        argnames = {x.arg for x in fn.args.args} | set(self.spec.get('params', ()))
+        ok_nodes = set()
+        for n in allnodes:
+            if isinstance(n, ast.Assign) and len(n.targets) == 1 and isinstance(n.targets[0], ast.Name) and hasattr(n.value, '_callee') \
+                    and n.targets[0].id in self.tuple_vars:
+                ok_nodes.add(id(n.targets[0]))
+            if isinstance(n, ast.Subscript) and isinstance(n.value, ast.Name) and n.value.id in self.tuple_vars and isinstance(n.ctx, ast.Load):
+                i = n.slice
+                if isinstance(i, ast.UnaryOp) and isinstance(i.op, ast.USub) and isinstance(i.operand, ast.Constant) and type(i.operand.value) is int:
+                    v = -i.operand.value
+                elif isinstance(i, ast.Constant) and type(i.value) is int:
+                    v = i.value
+                else:
+                    continue
+                ar = self.tuple_vars[n.value.id]
+                if len(ar) == 1 and -min(ar) <= v < min(ar):
+                    n._tuple_index = v % min(ar); ok_nodes.add(id(n.value))
+        for n in allnodes:
+            if isinstance(n, ast.Name) and n.id in self.tuple_vars:
+                if n.id in argnames or len(self.tuple_vars[n.id]) != 1:
+                    self.fail(n, 'a name bound to the tuple a call returns is a parameter / bound to tuples of different lengths')
+                if id(n) not in ok_nodes:
+                    self.fail(n, 'a name bound to the tuple a call returns may only be bound by such calls and read as name[<int literal>] (%s)' % n.id)
+        for nm in sorted(self.tuple_vars):
+            self.tuple_vars[nm] = min(self.tuple_vars[nm])
 
     def find_list_vars(self, fn):
         """Python lists that are appended to (`pbv = []` ... `pbv.append(pb)` ... `return ..., pbv`).  A name on which
@@ -342,7 +651,7 @@ class FnTranslator:
                             elif isinstance(el, ast.Subscript) and isinstance(el.value, ast.Name):
                                 mutate(s, el.value.id, shared)
                         if isinstance(s.value, ast.Call):      # the callee may return (views of) its array arguments
-                            for a in s.value.args:
+                            for a in list(s.value.args) + [k.value for k in s.value.keywords]:
                                 if not self.is_fresh(a):
                                     shared |= names(a)
                     # anything else is rejected by the statement translator
@@ -446,6 +755,8 @@ class FnTranslator:
                 return self.matrix_store(s, t)
             if isinstance(t, (ast.Tuple, ast.List)):
                 return self.call_assign(s, t)
+            if isinstance(t, ast.Name) and hasattr(s.value, '_callee'):
+                return self.call_assign_name(s, t)
             if isinstance(t, ast.Name):
                 if t.id in self.crit_objs:
                     if not (isinstance(s.value, ast.Call) and isinstance(s.value.func, ast.Name) and s.value.func.id in self.crit_class):
@@ -537,38 +848,66 @@ class FnTranslator:
             self.fail(s, 'index form')
         return 'SStore2 %d %s %s %s' % (x, self.expr(i), self.expr(j), self.expr(s.value))
 
+    def call_args(self, s, c, prog):
+        """the SCall argument list: one entry per parameter of the callee (positional arguments, then keyword arguments by name; an omitted
+        parameter must have a default and is [None]), followed by this program's hidden slots for the callee's oracle parameters.  SCall
+        evaluates the entries in PARAMETER order, Python evaluates the arguments in SOURCE order: keyword arguments must come in parameter order."""
+        if any(isinstance(a, ast.Starred) for a in c.args) or any(k.arg is None for k in c.keywords):
+            self.fail(s, 'starred arguments / **kwargs in a call')
+        n = prog.nexplicit
+        if len(c.args) > n:
+            self.fail(s, 'too many arguments')
+        args = [None] * n
+        for i, a in enumerate(c.args):
+            args[i] = self.expr(a)
+        last = len(c.args) - 1
+        for k in c.keywords:
+            if k.arg not in prog.param_names:
+                self.fail(s, 'unknown keyword argument %s' % k.arg)
+            i = prog.param_names.index(k.arg)
+            if args[i] is not None:
+                self.fail(s, 'argument %s given twice' % k.arg)
+            if i < last:
+                self.fail(s, 'keyword arguments not in the order of the parameters (evaluation order)')
+            last = i
+            args[i] = self.expr(k.value)
+        for i in range(n):
+            if args[i] is None and prog.defaults[i] is None:
+                self.fail(s, 'argument %s of the callee is missing' % prog.param_names[i])
+        return '; '.join([('None' if a is None else '(Some %s)' % a) for a in args] + ['(Some (EVar %d))' % h for h in c._hidden])
+
+    def call_head(self, s, c):
+        prog = c._callee
+        self.nodes += prog.nodes
+        return prog, (len(prog.params), '[' + '; '.join('None' if d is None else '(Some %s)' % d for d in prog.defaults) + ']', len(prog.slots), prog.body,
+                      self.call_args(s, c, prog))
+
+    def unread(self, name):
+        return not any(isinstance(n, ast.Name) and n.id == name and isinstance(n.ctx, ast.Load) for n in ast.walk(self.fn))
+
     def call_assign(self, s, t):
-        """[x, y[i], ..] = f(a, b, ..) for another function f of the same module: f is translated by this translator (its own slots, its own
-        aliasing pass) and embedded as an SCall; its n >= 2 results go to fresh slots, then the targets are assigned left to right."""
+        """[x, y[i], ..] = f(a, b, ..) for another function f of the package (same module: T5; another module, resolved through the imports:
+        T6): f is translated by this translator (its own slots, its own aliasing pass) and embedded as an SCall; its n >= 2 results go to fresh
+        slots, then the targets are assigned left to right."""
         c = s.value
         if len(t.elts) < 2:
             self.fail(s, 'unpacking into fewer than two targets')
-        if not (isinstance(c, ast.Call) and isinstance(c.func, ast.Name)):
-            self.fail(s, 'tuple assignment of something else than a call of a function of this module')
-        f = c.func.id
-        if f in self.assigned or f in self.oracle_fns or f in self.crit_class or f in self.crit_objs or f in EXC:
-            self.fail(s, 'call of a local / special name')
-        if c.keywords or any(isinstance(a, ast.Starred) for a in c.args):
-            self.fail(s, 'keyword / starred arguments in a call')
-        if f == self.fn.name or f in self.stack:
-            self.fail(s, 'recursive call')
-        fndef = find_function(self.modtree, f, s)
-        sub = FnTranslator(self.modtree, fndef, {}, f, stack=self.stack + (self.fn.name,))
-        prog = sub.translate()
-        if sub.matrix_vars:
-            self.fail(s, 'callee uses a 2-D array')
-        if len(c.args) > len(prog.params):
-            self.fail(s, 'too many arguments')
-        self.nodes += prog.nodes
-        args = [self.expr(a) for a in c.args]
+        if not (isinstance(c, ast.Call) and hasattr(c, '_callee')):
+            self.fail(s, 'tuple assignment of something else than a call of a function of the package')
+        f = c._callee.pyname
+        prog, parts = self.call_head(s, c)
+        if prog.arities != {len(t.elts)}:
+            self.fail(s, 'the callee does not return %d values on every path' % len(t.elts))
         tmps = [self.new_slot('%s@ret%d#%d' % (f, i, len(self.slots))) for i in range(len(t.elts))]
-        out = ['SCall [%s] %d %s %d\n(%s)\n[%s]' % ('; '.join('%d%%nat' % x for x in tmps), len(prog.params),
-                                                    '[' + '; '.join('None' if d is None else '(Some %s)' % d for d in prog.defaults) + ']', len(prog.slots), prog.body,
-                                                    '; '.join(['(Some %s)' % a for a in args] + ['None'] * (len(prog.params) - len(args))))]
-        for el, tmp in zip(t.elts, tmps):
+        out = ['SCall [%s] %d %s %d\n(%s)\n[%s]' % (('; '.join('%d%%nat' % x for x in tmps),) + parts)]
+        for i, (el, tmp) in enumerate(zip(t.elts, tmps)):
+            if i in prog.matrix_rets:
+                # a 2-D array result: no variable of this function may hold a matrix that is read by its 1-D operations: bind and never read
+                if not (isinstance(el, ast.Name) and self.unread(el.id) and el.id not in self.matrix_vars):
+                    self.fail(s, 'a 2-D array returned by the callee is bound to something that is read')
             if isinstance(el, ast.Name):
-                if el.id in self.matrix_vars or el.id in self.crit_objs or el.id in self.list_vars:
-                    self.fail(s, 'call result bound to a 2-D array / Criteria / list name')
+                if el.id in self.matrix_vars or el.id in self.crit_objs or el.id in self.list_vars or el.id in self.tuple_vars:
+                    self.fail(s, 'call result bound to a 2-D array / Criteria / list / tuple name')
                 out.append('SAssign %d (EVar %d)' % (self.slot_of_local(el.id), tmp))
             elif isinstance(el, ast.Subscript) and isinstance(el.value, ast.Name) and not isinstance(el.slice, (ast.Slice, ast.Tuple)):
                 x = self.lookup(el.value.id)
@@ -578,6 +917,31 @@ class FnTranslator:
             else:
                 self.fail(s, 'assignment target')
         return self.seq(out)
+
+    def call_assign_name(self, s, t):
+        """x = f(..) for a function f of the package.  f returns ONE value on every path: SCall1 binds it to x.  f returns a tuple of n >= 2 values on
+        every path: x is a tuple name (only ever read as x[<int literal>]); the n values go to the n slots of x."""
+        c = s.value
+        prog, parts = self.call_head(s, c)
+        if t.id in self.matrix_vars or t.id in self.crit_objs or t.id in self.list_vars:
+            self.fail(s, 'call result bound to a 2-D array / Criteria / list name')
+        if t.id in self.tuple_vars:
+            n = self.tuple_vars[t.id]
+            if prog.arities != {n}:
+                self.fail(s, 'the callee does not return %d values on every path' % n)
+            for i in prog.matrix_rets:
+                if any(isinstance(m, ast.Subscript) and isinstance(m.value, ast.Name) and m.value.id == t.id and getattr(m, '_tuple_index', None) == i
+                       for m in ast.walk(self.fn)):
+                    self.fail(s, 'a 2-D array returned by the callee is read')
+            slots = [self.lookup('%s@%d' % (t.id, i)) for i in range(n)]
+            if slots[0] is None:
+                slots = []
+                for i in range(n):
+                    x = self.new_slot('%s@%d' % (t.id, i)); self.scopes[0]['%s@%d' % (t.id, i)] = x; slots.append(x)
+            return 'SCall [%s] %d %s %d\n(%s)\n[%s]' % (('; '.join('%d%%nat' % x for x in slots),) + parts)
+        if prog.arities != {1} or prog.matrix_rets:
+            self.fail(s, 'the callee does not return exactly one (1-D / scalar) value on every path')
+        return 'SCall1 %d %d %s %d\n(%s)\n[%s]' % ((self.slot_of_local(t.id),) + parts)
 
     def is_int_promotion(self, s):
         """exactly `if <x>.dtype.kind in '<subset of iub>': <x> = <x>.astype(float)` for a local array <x> (no else):
@@ -686,6 +1050,8 @@ class FnTranslator:
                     self.fail(e, 'global name used as a value')
             if e.id in self.crit_objs:
                 self.fail(e, 'Criteria object used as a value')
+            if e.id in self.tuple_vars:
+                self.fail(e, 'tuple name used as a value')
             return '(EVar %d)' % s
         if isinstance(e, ast.BinOp):
             if isinstance(e.op, ast.Pow):
@@ -747,6 +1113,13 @@ class FnTranslator:
             return '(ECmp %s %s %s)' % (CMPOPS[type(op)], self.expr(l), self.expr(r))
         if isinstance(e, ast.Subscript) and isinstance(e.slice, ast.Tuple):
             return self.matrix_index(e)
+        if isinstance(e, ast.Subscript) and isinstance(e.value, ast.Name) and e.value.id in self.tuple_vars:
+            if not hasattr(e, '_tuple_index'):
+                self.fail(e, 'index of a tuple name')
+            x = self.lookup('%s@%d' % (e.value.id, e._tuple_index))
+            if x is None:       # read textually before the call that binds it
+                self.fail(e, 'tuple name read before it is bound')
+            return '(EVar %d)' % x
         if isinstance(e, ast.Subscript):
             a = self.expr(e.value)
             sl = e.slice
@@ -917,13 +1290,17 @@ def find_function(tree, fname, where=None, modname='the module'):
     return fns[0]
 
 
-def translate(name, source=None):
+def translate(name, source=None, sources=None):
+    """the IR program of SPECS[name], from the snapshot's text of its module (or `source`); the other modules of the package it calls into are
+    read from the snapshot too (or from `sources`: {module: text})"""
     spec = SPECS[name]
-    if source is None:
-        source, _ = snapshot_source(spec['module'])
-    tree = ast.parse(source)
+    src = dict(sources or {})
+    if source is not None:
+        src[spec['module']] = source
+    loader = Loader(src)
+    tree = loader.tree(spec['module'])
     fname = spec.get('function', name)
-    return FnTranslator(tree, find_function(tree, fname, modname=spec['module'] + '.py'), spec, name).translate()
+    return FnTranslator(tree, find_function(tree, fname, modname=spec['module'] + '.py'), spec, name, modname=spec['module'], loader=loader).translate()
 
 
 # ---------------------------------------------------------------- self-test of the fail-closed behaviour
@@ -1052,10 +1429,21 @@ SELFTEST2_BAD = [
     ('slice view of a matrix row, then store', "    kr = numpy.conj(U[0, 1:])", "    kr = U[0, 1:]\n    kr[0] = 2"),
     ('matrix passed to a call', "g(a, w[k])", "g(U, w[k])"),
     ('call of an unknown function', "g(a, w[k])", "h(a, w[k])"),
-    ('call with a keyword argument', "g(a, w[k])", "g(a, e=w[k])"),
+    ('call with an unknown keyword argument', "g(a, w[k])", "g(a, q=w[k])"),
+    ('call with an argument given twice', "g(a, w[k])", "g(a, w[k], e=1.)"),
+    ('call with keyword arguments out of parameter order', "g(a, w[k])", "g(e=w[k], a=a)"),
+    ('call with a missing argument', "g(a, w[k])", "g(e=w[k])"),
+    ('call with **kwargs', "g(a, w[k])", "g(a, **w)"),
     ('call with a starred argument', "g(a, w[k])", "g(*a)"),
     ('call with too many arguments', "g(a, w[k])", "g(a, w[k], 1)"),
-    ('call result bound to one name', "[a, w[k - 1]] = g(a, w[k])", "z = g(a, w[k])"),
+    ('tuple a call returns used as a value', "[a, w[k - 1]] = g(a, w[k])", "z = g(a, w[k])\n        y = z"),
+    ('tuple a call returns in arithmetic', "[a, w[k - 1]] = g(a, w[k])", "z = g(a, w[k])\n        y = z * 2"),
+    ('tuple a call returns indexed by a variable', "[a, w[k - 1]] = g(a, w[k])", "z = g(a, w[k])\n        y = z[k]"),
+    ('tuple a call returns indexed out of range', "[a, w[k - 1]] = g(a, w[k])", "z = g(a, w[k])\n        y = z[2]"),
+    ('tuple a call returns sliced', "[a, w[k - 1]] = g(a, w[k])", "z = g(a, w[k])\n        y = z[0:1]"),
+    ('tuple name rebound to an array', "[a, w[k - 1]] = g(a, w[k])", "z = g(a, w[k])\n        z = a"),
+    ('tuple name is a parameter', "[a, w[k - 1]] = g(a, w[k])", "e = g(a, w[k])"),
+    ('call as an expression statement', "[a, w[k - 1]] = g(a, w[k])", "g(a, w[k])"),
     ('call result unpacked into one target', "[a, w[k - 1]] = g(a, w[k])", "[a] = g(a, w[k])"),
     ('nested unpacking', "[a, w[k - 1]] = g(a, w[k])", "[a, [z, w[k - 1]]] = g(a, w[k])"),
     ('call result stored into a slice', "[a, w[k - 1]] = g(a, w[k])", "[a, w[0:1]] = g(a, w[k])"),
@@ -1064,7 +1452,7 @@ SELFTEST2_BAD = [
     ('recursive callee', "    b = a[1:]", "    [b, z] = g(a, e)"),
     ('callee stores into its parameter', "    b = a[1:]", "    a[0] = 1\n    b = a[1:]"),
     ('callee outside the accepted subset', "    c = None", "    c = None\n    while False:\n        pass"),
-    ('callee with a 2-D array', "    b = a[1:]", "    b = a[1:]\n    V = numpy.zeros((2, 2))"),
+    ('callee returns a 2-D array that the caller stores into an array', "    return b, c", "    V = numpy.zeros((2, 2))\n    return b, V"),
     ('callee rebound at module level', "def f(a, e):", "g = len\ndef f(a, e):"),
     ('store through a call result that may alias the argument', "        U[:, k] =", "        a[0] = 1\n        U[:, k] ="),
     ('zero-list repetition outside concatenate', "    U[0, 0] = 1", "    z = [0] * p\n    U[0, 0] = 1"),
@@ -1073,6 +1461,108 @@ SELFTEST2_BAD = [
     ('repetition of a float-zero list', "[0] * (p - k)", "[0.] * (p - k)"),
     ('abs without a square', "abs(a[0] ** 2)", "abs(a[0])"),
     ('abs of a cube', "abs(a[0] ** 2)", "abs(a[0] ** 3)"),
+]
+
+
+# T6 (the wrappers): calls of functions of OTHER modules of the package resolved through the imports, keyword / omitted arguments, a callee with
+# hidden oracle parameters, a call that returns one value, a name bound to the tuple a call returns, a function-level import, NotImplementedError
+SELFTEST3_OK = {
+    '__init__': """
+from .correlation import *
+from .modh import *
+from .modf import *
+""",
+    'correlation': """
+import numpy
+__all__ = ['CORRELATION']
+def pylab_rms_flat(a):
+    return 1
+def CORRELATION(x, m=None, norm='biased'):
+    x = numpy.array(x)
+    if norm == 'coeff':
+        x = x / pylab_rms_flat(x)
+    return x
+""",
+    'modh': """
+import numpy
+__all__ = ['h', 'h1']
+def h(a, e=None, flag=True):
+    U = numpy.zeros((2, 2))
+    U[0, 0] = a[0]
+    b = a[1:]
+    return b, U, e
+def h1(a, n=2):
+    b = a[0:n]
+    return b
+""",
+    'modf': """
+import numpy
+__all__ = ['f']
+from .modh import h, h1
+from spectrum.correlation import CORRELATION
+import spectrum.modh as mh
+from spectrum import modh
+def f(x, n, e=None):
+    from .modh import h1 as hh
+    r = CORRELATION(x, m=n)
+    b, V, c = h(r, flag=False)
+    t = mh.h(b, e)
+    d = modh.h1(t[0])
+    q = hh(d, 1)
+    if n <= 0:
+        raise NotImplementedError
+    return q, t[2], c
+""",
+}
+SELFTEST3_BAD = [           # (what, module, old, new)
+    ('unknown keyword argument (other module)', 'modf', "h(r, flag=False)", "h(r, flg=False)"),
+    ('argument given twice (other module)', 'modf', "h(r, flag=False)", "h(r, a=r)"),
+    ('keyword arguments out of parameter order (other module)', 'modf', "h(r, flag=False)", "h(flag=False, a=r)"),
+    ('missing argument (other module)', 'modf', "h(r, flag=False)", "h(flag=False)"),
+    ('**kwargs (other module)', 'modf', "h(r, flag=False)", "h(r, **x)"),
+    ('starred argument (other module)', 'modf', "h(r, flag=False)", "h(*r)"),
+    ('too many arguments (other module)', 'modf', "h(r, flag=False)", "h(r, None, False, 1)"),
+    ('tuple name used as a value', 'modf', "    d = modh.h1(t[0])", "    d = modh.h1(t[0])\n    z = t"),
+    ('tuple name indexed by a variable', 'modf', "modh.h1(t[0])", "modh.h1(t[n])"),
+    ('tuple name indexed out of range', 'modf', "t[2], c", "t[3], c"),
+    ('tuple name rebound', 'modf', "    d = modh.h1(t[0])", "    t = x\n    d = modh.h1(t[0])"),
+    ('tuple name sliced', 'modf', "modh.h1(t[0])", "modh.h1(t[0:1])"),
+    ('2-D component of a returned tuple is read', 'modf', "t[2], c", "t[1], c"),
+    ('2-D array returned by a callee bound to a name that is read', 'modf', "return q, t[2], c", "return q, t[2], V"),
+    ('2-D array returned by a callee stored into an array', 'modf', "b, V, c = h(", "b, x[0], c = h("),
+    ('tuple passed to a call', 'modf', "d = modh.h1(t[0])", "d = modh.h(t[0])"),
+    ('call inside an expression', 'modf', "q = hh(d, 1)", "q = hh(d, 1) * 2"),
+    ('call as an expression statement (other module)', 'modf', "    q = hh(d, 1)", "    hh(d, 1)\n    q = d"),
+    ('call inside a return', 'modf', "return q, t[2], c", "return hh(q), t[2], c"),
+    ('function that the module does not define', 'modf', "mh.h(b, e)", "mh.nothere(b, e)"),
+    ('module that the package does not have', 'modf', "import spectrum.modh as mh", "import spectrum.nomod as mh"),
+    ('module name rebound', 'modf', "import spectrum.modh as mh", "import spectrum.modh as mh\nmh = None"),
+    ('imported function rebound at module level', 'modf', "from .modh import h, h1", "from .modh import h, h1\nh = len"),
+    ('imported function rebound by a second import', 'modf', "from .modh import h, h1", "from .modh import h, h1\nfrom .correlation import CORRELATION as h"),
+    ('imported function rebound through a global declaration', 'modf', "def f(x, n, e=None):", "def zz():\n    global h\n    h = len\ndef f(x, n, e=None):"),
+    ('star import next to the imported function', 'modf', "from .modh import h, h1", "from .modh import h, h1\nfrom os.path import *"),
+    ('package attribute rebound by __init__', '__init__', "from .modf import *", "from .modf import *\nmodh = None"),
+    ('package attribute rebound by a star export', 'correlation', "__all__ = ['CORRELATION']", "__all__ = ['CORRELATION', 'modh']"),
+    ('package attribute rebound by a module without __all__', 'correlation', "__all__ = ['CORRELATION']\n", "def modh():\n    pass\n"),
+    ('function-level import after a statement', 'modf', "    from .modh import h1 as hh\n    r = CORRELATION(x, m=n)", "    r = CORRELATION(x, m=n)\n    from .modh import h1 as hh"),
+    ('function-level import from outside the package', 'modf', "    from .modh import h1 as hh", "    from os import getcwd as hh"),
+    ('function-level plain import', 'modf', "    from .modh import h1 as hh", "    from .modh import h1 as hh\n    import os"),
+    ('function-level import of a name that is assigned', 'modf', "    q = hh(d, 1)", "    q = hh(d, 1)\n    hh = 1"),
+    ('function-level import of a name the module does not define', 'modf', "    from .modh import h1 as hh", "    from .modh import h2 as hh"),
+    ('function-level star import', 'modf', "    from .modh import h1 as hh", "    from .modh import *"),
+    ('relative import of level 2', 'modf', "from .modh import h, h1", "from ..modh import h, h1"),
+    ('callee (other module) outside the accepted subset', 'modh', "    b = a[0:n]", "    b = a[0:n]\n    while False:\n        pass"),
+    ('callee (other module) stores into its parameter', 'modh', "    b = a[0:n]", "    a[0] = 1\n    b = a[0:n]"),
+    ('callee (other module) is decorated', 'modh', "def h1(a, n=2):", "@staticmethod\ndef h1(a, n=2):"),
+    ('callee (other module) defined twice', 'modh', "def h1(a, n=2):", "def h1(a):\n    return a\ndef h1(a, n=2):"),
+    ('recursion through another module', 'modh', "    b = a[0:n]\n", "    from .modf import f\n    b = a[0:n]\n    q, w, z = f(b, n)\n"),
+    ('callee returns different numbers of values', 'modh', "    return b, U, e", "    if flag:\n        return b\n    return b, U, e"),
+    ('one-value call of a callee that returns a 2-D array', 'modh', "    b = a[0:n]\n    return b", "    b = numpy.zeros((2, 2))\n    return b"),
+    ('store through a call result that may alias the argument (other module)', 'modf', "    t = mh.h(b, e)", "    b[0] = 1\n    t = mh.h(b, e)"),
+    ('store through a one-value call result', 'modf', "    q = hh(d, 1)", "    q = hh(d, 1)\n    q[0] = 1"),
+    ('unknown exception class raised', 'modf', "raise NotImplementedError", "raise KeyError"),
+    ('oracle of the callee called in an unexpected shape', 'correlation', "pylab_rms_flat(x)", "pylab_rms_flat(x, 1)"),
+    ('callee calls an unknown function', 'correlation', "x = numpy.array(x)", "x = numpy.array(other(x))"),
 ]
 
 
@@ -1087,12 +1577,28 @@ def translator_selftest():
     def tr2(src):
         tree = ast.parse(src)
         return FnTranslator(tree, find_function(tree, 'f'), spec, 'f').translate()
+    def tr3(srcs):
+        ld = Loader(srcs, only=True)
+        tree = ld.tree('modf')
+        return FnTranslator(tree, find_function(tree, 'f'), spec, 'f', modname='modf', loader=ld).translate()
     try:
         tr(SELFTEST_OK)
         tr2(SELFTEST2_OK)
+        p3 = tr3(SELFTEST3_OK)
+        if len(p3.oracle_params) != 1 or p3.body.count('SCall1 ') != 3 or p3.body.count('SCall [') != 2:
+            return ['base case 3: unexpected translation']
     except Untranslatable as e:
         return ['base case rejected: %s' % e]
     bad = []
+    for what, mod, old, new in SELFTEST3_BAD:
+        assert old in SELFTEST3_OK[mod], what
+        try:
+            tr3(dict(SELFTEST3_OK, **{mod: SELFTEST3_OK[mod].replace(old, new, 1)}))
+            bad.append(what)
+        except Untranslatable:
+            pass
+        except SyntaxError as e:     # pragma: no cover
+            bad.append('%s (self-test edit does not parse: %s)' % (what, e))
     for base, edits, run in ((SELFTEST_OK, SELFTEST_BAD, tr), (SELFTEST2_OK, SELFTEST2_BAD, tr2)):
         for what, old, new in edits:
             assert old in base, what
@@ -1687,16 +2193,329 @@ def gen_rlevinson(rng, n, nimpl):
     return c
 
 
+# ---------------------------------------------------------------- the wrappers (T6): aryule, ma (C12, C15); the conversions of linear_prediction.py (C11)
+def oracle_vals(rng, n):
+    """arbitrary values for the hidden pylab_rms_flat slots of the embedded CORRELATIONs (never read: aryule passes norm biased / unbiased only)"""
+    return [complex(int(rng.integers(1, 9)) / 4.0) for _ in range(n)]
+
+
+def gen_aryule(rng, n, nimpl):
+    from spectrum.yulewalker import aryule
+    c = Cases('aryule')
+    kinds = ['plain', 'unbiased', 'plain', 'allow_false', 'order_ge_N', 'singular', 'plain', 'norm_bad', 'order0', 'unbiased', 'allow_true', 'singular',
+             'constant', 'empty']
+    i = 0
+    while len(c.exact) < n:
+        kind = kinds[i % len(kinds)]; i += 1
+        cplx = bool(rng.integers(0, 2)); N = int(rng.integers(3, 9)); p = int(rng.integers(1, min(5, N - 1) + 1))
+        x = lowbit(rng, N, cplx, bits=2)
+        nm = None; allow = None
+        if kind == 'unbiased':
+            nm = 'unbiased'
+        elif kind == 'allow_false':
+            allow = False; nm = ['biased', None][int(rng.integers(0, 2))]
+        elif kind == 'allow_true':
+            allow = True; nm = 'unbiased'
+        elif kind == 'order_ge_N':
+            p = N + int(rng.integers(0, 2))
+        elif kind == 'singular':
+            # an unbiased estimate that is not positive definite (x = [a, 0, .., 0, b]: r_{N-1} = a*b is divided by 1, r_0 by N), allow_singularity False / default
+            x = np.zeros(N, dtype=complex); x[0] = int(rng.integers(1, 4)); x[-1] = int(rng.integers(1, 4)) * (1j if cplx and rng.integers(0, 2) else 1)
+            p = N - 1; nm = 'unbiased'; allow = [False, None, True][int(rng.integers(0, 3))]
+        elif kind == 'norm_bad':
+            nm = ['coeff', 'foo'][int(rng.integers(0, 2))]
+        elif kind == 'order0':
+            p = 0
+        elif kind == 'constant':
+            x = np.ones(N) * (2 if not cplx else 1j); nm = 'unbiased'; allow = False; p = min(p, 2)      # r_k = r_0: P = 0 at stage 1
+        elif kind == 'empty':
+            x = x[:0]; p = int(rng.integers(0, 2))
+        tags = [False] if (cplx and len(x)) else [True, False]
+        kw = {}
+        if nm is not None:
+            kw['norm'] = nm
+        if allow is not None:
+            kw['allow_singularity'] = allow
+        with np.errstate(all='ignore'):
+            res = call_impl(aryule, x if cplx else np.real(x), p, **kw)
+        o1, o2 = oracle_vals(rng, 2)
+        for tag in tags:
+            c.add('q_aryule prog_aryule %s %s %d%%nat %s %s %s %s' % ('true' if tag else 'false', czl(x), p, opt(None if nm is None else '"%s"' % nm),
+                                                                   opt(None if allow is None else ('true' if allow else 'false')), cz(o1), cz(o2)),
+                  impl=res, x=vlib.hexv(x), order=p, norm=nm, allow_singularity=allow, declared_real=tag, kind=kind)
+        if len(c.impl) < nimpl and kind in ('plain', 'unbiased', 'order_ge_N', 'norm_bad', 'order0', 'allow_false'):
+            out, ex = res
+            args = '[%s; %s; %s; %s; %s; %s]' % (A_(not cplx, x), I_(p), 'Omit' if nm is None else Str_(nm), 'Omit' if allow is None else B_(allow), S_(o1), S_(o2))
+            if ex is not None:
+                if ex in EXC and not any(m.get('impl_raised') == ex and m.get('kind') == kind for m in c.impl_meta):
+                    c.add_impl('ir_raises (qrun prog_aryule %s) %s' % (args, ex), x=vlib.hexv(x), order=p, norm=nm, impl_raised=ex, kind=kind)
+            else:
+                a, P, k = out
+                r0 = float(np.sum(np.abs(x) ** 2)) / len(x)
+                kap = max(1.0, r0 / max(abs(P), 1e-300))
+                if kap < 1e3 and np.all(np.isfinite(a)) and np.all(np.abs(k) < 0.99):
+                    c.add_impl('ir_close %s (qrun prog_aryule %s) %s' % (tolq(1e-9 * kap * max(1.0, float(np.max(np.abs(a))) if len(a) else 1.0)), args, outs(a, P, k)),
+                               x=vlib.hexv(x), order=p, norm=nm, kind=kind)
+    return c
+
+
+def gen_ma(rng, n, nimpl):
+    from spectrum.arma import ma
+    c = Cases('ma')
+    kinds = ['plain', 'plain', 'q0', 'plain', 'q_ge_m', 'm_ge_N', 'plain', 'qneg', 'plain', 'q_eq_m', 'plain', 'predictable']
+    i = 0
+    while len(c.exact) < n:
+        kind = kinds[i % len(kinds)]; i += 1
+        cplx = bool(rng.integers(0, 2)); N = int(rng.integers(5, 10)); M = int(rng.integers(2, min(5, N - 1) + 1)); Q = int(rng.integers(1, M))
+        x = lowbit(rng, N, cplx, bits=2)
+        if kind == 'q0':
+            Q = 0
+        elif kind == 'qneg':
+            Q = -int(rng.integers(1, 3))
+        elif kind == 'q_ge_m':
+            Q = M + int(rng.integers(1, 3))
+        elif kind == 'q_eq_m':
+            Q = M
+        elif kind == 'm_ge_N':
+            M = N + int(rng.integers(0, 2)); Q = int(rng.integers(1, 4))
+        elif kind == 'predictable':
+            x = np.array([1.0, -1.0] * 5)[:N] * (1j if cplx else 1)     # strongly predictable: a reflection coefficient close to one, small P
+        tags = [False] if cplx else [True, False]
+        with np.errstate(all='ignore'):
+            res = call_impl(ma, x if cplx else np.real(x), Q, M)
+        o = oracle_vals(rng, 4)
+        for tag in tags:
+            c.add('q_ma prog_ma %s %s (%d) (%d) %s' % ('true' if tag else 'false', czl(x), Q, M, ' '.join(cz(v) for v in o)),
+                  impl=res, x=vlib.hexv(x), Q=Q, M=M, declared_real=tag, kind=kind)
+        if len(c.impl) < nimpl and kind != 'predictable':
+            out, ex = res
+            args = '[%s; %s; %s; %s]' % (A_(not cplx, x), I_(Q), I_(M), '; '.join(S_(v) for v in o))
+            if ex is not None:
+                if ex in EXC and not any(m.get('kind') == kind for m in c.impl_meta):
+                    c.add_impl('ir_raises (qrun prog_ma %s) %s' % (args, ex), x=vlib.hexv(x), Q=Q, M=M, impl_raised=ex, kind=kind)
+            else:
+                b, rho = out
+                from spectrum.yulewalker import aryule
+                a1, p1, k1 = aryule(x if cplx else np.real(x), M, 'biased'); b2, p2, k2 = aryule(np.insert(a1, 0, 1), Q, 'biased')
+                kap = max([1.0] + [1 / abs(1 - abs(t) ** 2) for t in list(k1) + list(k2) if abs(t) != 1])
+                if kap < 1e3 and np.all(np.isfinite(b)):
+                    c.add_impl('ir_close %s (qrun prog_ma %s) %s' % (tolq(1e-9 * kap * kap * max(1.0, float(np.max(np.abs(a1))))), args, outs(b, rho)),
+                               x=vlib.hexv(x), Q=Q, M=M, kind=kind)
+    return c
+
+
+def gen_ac2(fname):
+    """ac2poly / ac2rc: LEVINSON(data) at full order, allow_singularity False"""
+    def gen(rng, n, nimpl):
+        import spectrum.linear_prediction as lp
+        f = getattr(lp, fname)
+        c = Cases(fname)
+        kinds = ['acorr', 'acorr', 'indef', 'acorr', 'len1', 'r0complex', 'acorr', 'empty', 'indef', 'structured']
+        i = 0
+        while len(c.exact) < n:
+            kind = kinds[i % len(kinds)]; i += 1
+            cplx = bool(rng.integers(0, 2)); p = int(rng.integers(1, 6)); N = p + int(rng.integers(2, 8))
+            r = acorr_int(lowbit(rng, N, cplx), p)
+            if kind == 'indef':
+                j = int(rng.integers(1, p + 1)); r = r.copy(); r[j] = r[j] + (3 + rng.integers(0, 3)) * np.real(r[0])
+            elif kind == 'len1':
+                r = r[:1]
+            elif kind == 'empty':
+                r = r[:0]
+            elif kind == 'r0complex':
+                r = r.astype(complex); r[0] = r[0] + 1j * int(rng.integers(1, 4)); cplx = True     # ac2rc returns data[0] itself, LEVINSON starts from its real part
+            elif kind == 'structured':
+                r = structured_acorr(rng, max(p, 2), cplx); cplx = bool(np.any(np.imag(r) != 0)) or cplx
+            tags = [False] if (cplx and len(r)) else [True, False]
+            with np.errstate(all='ignore'):
+                res = call_impl(f, r if cplx else np.real(r))
+            for tag in tags:
+                c.add('q_%s prog_%s %s %s' % (fname, fname, 'true' if tag else 'false', czl(r)), impl=res, r=vlib.hexv(r), declared_real=tag, kind=kind)
+            if len(c.impl) < nimpl and kind in ('acorr', 'indef', 'len1', 'r0complex'):
+                out, ex = res
+                args = '[%s]' % A_(not cplx, r)
+                if ex is not None:
+                    if ex in EXC and not any(m.get('impl_raised') == ex for m in c.impl_meta):
+                        c.add_impl('ir_raises (qrun prog_%s %s) %s' % (fname, args, ex), r=vlib.hexv(r), impl_raised=ex, kind=kind)
+                else:
+                    from spectrum import LEVINSON
+                    a, P, k = LEVINSON(r if cplx else np.real(r))
+                    kap = max(1.0, abs(r[0]) / max(abs(P), 1e-300))
+                    if kap < 1e3 and np.all(np.isfinite(a)):
+                        c.add_impl('ir_close %s (qrun prog_%s %s) %s' % (tolq(1e-9 * kap * max(1.0, abs(r[0]))), fname, args, outs(out[0], out[1])), r=vlib.hexv(r), kind=kind)
+        return c
+    return gen
+
+
+def rlev_poly(rng, i):
+    """(kind, a, real, efinal): the input kinds of gen_rlevinson (prediction polynomials on the 1/64 grid, the argument errors, exact step-ups
+    with a reflection coefficient equal to one / of modulus one, non-minimum-phase polynomials, efinal <= 0)"""
+    kinds = ['poly', 'real', 'poly', 'a0', 'real', 'k1', 'poly', 'short', 'nonmin', 'real', 'unitk', 'poly', 'empty', 'enonpos', 'k1', 'real']
+    kind = kinds[i % len(kinds)]
+    p = int(rng.integers(1, 6))
+    a = poly_from_refl(rng, p); real = False
+    ef = float(rng.integers(1, 33)) / 8
+    if kind == 'real':
+        ks = rng.integers(-10, 11, size=p) / 16.0
+        a = np.zeros(0)
+        for t in ks:
+            a = np.concatenate((a + t * a[::-1], [t]))
+        a = np.concatenate(([1.0], np.round(a * 64) / 64)).astype(complex); real = True
+    elif kind == 'a0':
+        a = a.copy(); a[0] = [2, 0.5, 0, 1 + 1j][int(rng.integers(0, 4))]
+    elif kind == 'short':
+        a = a[:1]
+    elif kind == 'empty':
+        a = a[:0]
+    elif kind in ('k1', 'unitk'):
+        p = int(rng.integers(2, 5)); real = bool(rng.integers(0, 2))
+        ks = rng.integers(-2, 3, size=p) / 4.0 + (0 if real else 1j * rng.integers(-2, 3, size=p) / 4.0)
+        j = int(rng.integers(1, p))
+        ks = ks.astype(complex); ks[j] = 1 if kind == 'k1' else [-1, 1j, -1j][int(rng.integers(0, 1 if real else 3))]
+        a = stepup_exact(ks)
+    elif kind == 'nonmin':
+        a = np.concatenate(([1.0 + 0j], lowbit(rng, p, True, bits=3) / 4.0))
+    elif kind == 'enonpos':
+        ef = -float(rng.integers(0, 9)) / 8
+    return kind, a, real, ef
+
+
+def gen_poly2(fname, which):
+    """poly2ac (which = 0: R) / poly2rc (which = 2: kr): one component of rlevinson(a, efinal)"""
+    def gen(rng, n, nimpl):
+        import spectrum.linear_prediction as lp
+        f = getattr(lp, fname)
+        c = Cases(fname)
+        i = 0
+        while len(c.exact) < n:
+            kind, a, real, ef = rlev_poly(rng, i); i += 1
+            for tag in ([True, False] if real else [False]):
+                arg = np.real(a) if tag else np.asarray(a, dtype=complex)
+                with np.errstate(all='ignore'):
+                    res = call_impl(f, arg, ef)
+                c.add('q_%s prog_%s %s %s %s' % (fname, fname, 'true' if tag else 'false', czl(a), cz(ef)), impl=res, a=vlib.hexv(a), efinal=ef, declared_real=tag, kind=kind)
+                if kind == 'unitk':
+                    continue
+                out, ex = res
+                args = '[%s; %s]' % (A_(tag, a), S_(ef))
+                if ex is not None:
+                    if ex in EXC and kind in ('a0', 'short', 'empty', 'k1') and not any(m.get('kind') == kind for m in c.impl_meta):
+                        c.add_impl('ir_raises (qrun prog_%s %s) %s' % (fname, args, ex), a=vlib.hexv(a), efinal=ef, impl_raised=ex, kind=kind)
+                elif kind in ('poly', 'real', 'enonpos') and sum(1 for m in c.impl_meta if 'impl_raised' not in m) < nimpl:
+                    from spectrum.levinson import rlevinson
+                    R, U, kr, es = rlevinson(arg, ef)
+                    if np.all(np.isfinite(R)) and np.all(np.isfinite(U)) and np.max(np.abs(kr)) < 0.97:
+                        kap = float(1.0 / np.prod(1 - np.abs(kr) ** 2))
+                        if kap <= 1e4:
+                            tol = 1e-9 * kap * kap * max(1.0, float(np.max(np.abs(U)))) * max(1.0, abs(ef))
+                            c.add_impl('ir_close %s (qrun prog_%s %s) %s' % (tolq(tol), fname, args, outs(out)), a=vlib.hexv(a), efinal=ef, kind=kind)
+        return c
+    return gen
+
+
+def gen_ar2rc(rng, n, nimpl):
+    import spectrum.linear_prediction as lp
+    c = Cases('ar2rc')
+    while len(c.exact) < n:
+        p = int(rng.integers(0, 4)); cplx = bool(rng.integers(0, 2))
+        a = lowbit(rng, p, cplx, bits=2)
+        res = call_impl(lp.ar2rc, a)
+        c.add('q_ar2rc prog_ar2rc %s %s' % ('false' if cplx else 'true', czl(a)), impl=(None, 'NotImplementedError') if res[1] == 'other:NotImplementedError' else res, a=vlib.hexv(a))
+        if len(c.impl) < min(nimpl, 2) and res[1] == 'other:NotImplementedError':
+            c.add_impl('ir_raises_ni (qrun prog_ar2rc [%s])' % A_(not cplx, a), a=vlib.hexv(a), impl_raised='NotImplementedError')
+    return c
+
+
+def refl_input(rng, i):
+    """(kind, k, real): reflection coefficients on the 1/8 grid, orders 1..5; the empty sequence; a coefficient equal to one / of modulus one"""
+    kinds = ['cplx', 'real', 'cplx', 'real', 'one', 'cplx', 'empty', 'real', 'unit', 'order1', 'one_first', 'big']
+    kind = kinds[i % len(kinds)]
+    p = int(rng.integers(1, 6)); real = kind in ('real',) or (kind in ('one', 'order1', 'big', 'one_first') and bool(rng.integers(0, 2)))
+    k = rng.integers(-6, 7, size=p) / 8.0 + (0 if real else 1j * rng.integers(-6, 7, size=p) / 8.0)
+    k = k.astype(complex)
+    if kind == 'empty':
+        k = k[:0]
+    elif kind == 'order1':
+        k = k[:1]
+    elif kind == 'one':
+        p = max(p, 2); k = np.resize(k, p); k[int(rng.integers(1, p))] = 1
+    elif kind == 'one_first':
+        k[0] = 1
+    elif kind == 'unit':
+        p = max(p, 2); k = np.resize(k, p); j = int(rng.integers(0, p)); k[j] = [-1, 1j, -1j][int(rng.integers(0, 1 if real else 3))]
+    elif kind == 'big':
+        k[int(rng.integers(0, p))] = 1.5 if real else 1 + 1j
+    return kind, k, (real or not np.any(np.imag(k) != 0)) and kind != 'empty'
+
+
+def gen_rc2poly(rng, n, nimpl):
+    import spectrum.linear_prediction as lp
+    c = Cases('rc2poly')
+    i = 0
+    while len(c.exact) < n:
+        kind, k, real = refl_input(rng, i); i += 1
+        r0 = None if i % 4 == 0 else float(rng.integers(1, 17)) / 4
+        for tag in ([True, False] if (real or len(k) == 0) else [False]):
+            arg = np.real(k) if tag else k
+            with np.errstate(all='ignore'), __import__('warnings').catch_warnings():
+                __import__('warnings').simplefilter('ignore')
+                res = call_impl(lp.rc2poly, arg, r0)
+            c.add('q_rc2poly prog_rc2poly %s %s %s' % ('true' if tag else 'false', czl(k), opt(None if r0 is None else cz(r0))), impl=res, k=vlib.hexv(k), r0=r0, declared_real=tag, kind=kind)
+            if len(c.impl) < nimpl and kind in ('cplx', 'real', 'empty', 'order1', 'one', 'big'):
+                out, ex = res
+                args = '[%s; %s]' % (A_(tag, k), 'Omit' if r0 is None else S_(r0))
+                if ex is not None:
+                    if ex in EXC and not any(m.get('kind') == kind for m in c.impl_meta):
+                        c.add_impl('ir_raises (qrun prog_rc2poly %s) %s' % (args, ex), k=vlib.hexv(k), r0=r0, impl_raised=ex, kind=kind)
+                elif np.all(np.isfinite(out[0])):
+                    c.add_impl('ir_close %s (qrun prog_rc2poly %s) %s' % (tolq(1e-10 * max(1.0, float(np.max(np.abs(out[0])))) * max(1.0, abs(r0 or 0))), args, outs(out[0], out[1])),
+                               k=vlib.hexv(k), r0=r0, kind=kind)
+    return c
+
+
+def gen_rc2ac(rng, n, nimpl):
+    import spectrum.linear_prediction as lp
+    c = Cases('rc2ac')
+    i = 0
+    while len(c.exact) < n:
+        kind, k, real = refl_input(rng, i); i += 1
+        r0 = float(rng.integers(1, 17)) / 4
+        if len(k) > 4:
+            k = k[:4]
+        for tag in ([True, False] if (real or len(k) == 0) else [False]):
+            arg = np.real(k) if tag else k
+            with np.errstate(all='ignore'), __import__('warnings').catch_warnings():
+                __import__('warnings').simplefilter('ignore')
+                res = call_impl(lp.rc2ac, arg, r0)
+            c.add('q_rc2ac prog_rc2ac %s %s %s' % ('true' if tag else 'false', czl(k), cz(r0)), impl=res, k=vlib.hexv(k), R0=r0, declared_real=tag, kind=kind)
+            if len(c.impl) < nimpl and kind in ('cplx', 'real', 'empty', 'order1', 'one'):
+                out, ex = res
+                args = '[%s; %s]' % (A_(tag, k), S_(r0))
+                if ex is not None:
+                    if ex in EXC and not any(m.get('kind') == kind for m in c.impl_meta):
+                        c.add_impl('ir_raises (qrun prog_rc2ac %s) %s' % (args, ex), k=vlib.hexv(k), R0=r0, impl_raised=ex, kind=kind)
+                elif np.all(np.isfinite(out)) and np.max(np.abs(k)) < 0.97:
+                    kap = float(1.0 / np.prod(1 - np.abs(k) ** 2))
+                    if kap <= 1e4:
+                        c.add_impl('ir_close %s (qrun prog_rc2ac %s) %s' % (tolq(1e-9 * kap * kap * max(1.0, r0)), args, outs(out)), k=vlib.hexv(k), R0=r0, kind=kind)
+    return c
+
+
 GENERATORS = {'LEVINSON': gen_LEVINSON, 'HERMTOEP': gen_HERMTOEP, 'TOEPLITZ': gen_TOEPLITZ, 'levup': gen_levup, 'levdown': gen_levdown,
               'arburg': gen_arburg, 'CORRELATION': gen_CORRELATION, 'minvar_psi': gen_minvar_psi,
               'arcovar_marple': gen_marple('arcovar_marple', False), 'modcovar_marple': gen_marple('modcovar_marple', True),
-              'rlevinson': gen_rlevinson}
+              'rlevinson': gen_rlevinson,
+              'aryule': gen_aryule, 'ma': gen_ma, 'ac2poly': gen_ac2('ac2poly'), 'ac2rc': gen_ac2('ac2rc'), 'poly2ac': gen_poly2('poly2ac', 0),
+              'poly2rc': gen_poly2('poly2rc', 2), 'ar2rc': gen_ar2rc, 'rc2poly': gen_rc2poly, 'rc2ac': gen_rc2ac}
 EXACT_BUDGET = {'LEVINSON': (64, 400), 'HERMTOEP': (48, 300), 'TOEPLITZ': (56, 300), 'levup': (45, 200), 'levdown': (44, 200),
                 'arburg': (65, 400), 'CORRELATION': (68, 400), 'minvar_psi': (48, 300),
-                'arcovar_marple': (36, 180), 'modcovar_marple': (36, 180), 'rlevinson': (56, 300)}
+                'arcovar_marple': (36, 180), 'modcovar_marple': (36, 180), 'rlevinson': (56, 300),
+                'aryule': (64, 400), 'ma': (40, 240), 'ac2poly': (40, 200), 'ac2rc': (40, 200), 'poly2ac': (44, 240), 'poly2rc': (44, 240),
+                'ar2rc': (4, 8), 'rc2poly': (44, 240), 'rc2ac': (44, 240)}
 # programs whose comparators live in a module of their own (imported by the case files only when such a program is tied)
 EXTRA_MODULES = {'arcovar_marple': 'Spectrum.Model.LoopIRMarple', 'modcovar_marple': 'Spectrum.Model.LoopIRMarple',
                  'rlevinson': 'Spectrum.Model.LoopIRRlev'}
+EXTRA_MODULES.update({nm: 'Spectrum.Model.LoopIRWrap' for nm in ('aryule', 'ma', 'ac2poly', 'ac2rc', 'poly2ac', 'poly2rc', 'ar2rc', 'rc2poly', 'rc2ac')})
 
 # ---------------------------------------------------------------- LEVINSON: translation + theorem
 LEV_PROOF = 'Proofs/LoopIRLevinson.v'
@@ -2119,6 +2938,180 @@ Print Assumptions loopir_arburg_tie.
 THEOREMS['arburg'] = dict(proof=ARBURG_PROOF, theorems=ARBURG_THEOREMS, block=ARBURG_BLOCK)
 
 
+# ---------------------------------------------------------------- aryule: translation + theorem by COMPOSITION of the theorems of CORRELATION and LEVINSON (T6)
+ARYULE_PROOF = 'Proofs/LoopIRAryule.v'
+ARYULE_THEOREMS = ['loopir_aryule_model', 'loopir_aryule_complex', 'loopir_aryule_real', 'loopir_aryule_tie']
+ARYULE_BLOCK = """
+(* The program regenerated on this run - with the programs of CORRELATION and LEVINSON embedded - is, term for term, the one
+   Proofs/LoopIRAryule.v is about: its theorems (composition of correlation_ir_run and levinson_ir_run through SCall1 / SCall) apply. *)
+Require Import Spectrum.Theory.Ops Spectrum.Theory.Vec Spectrum.Model.Levinson Spectrum.Model.Corr Spectrum.Model.Yule Spectrum.Model.LoopIRTie
+               Spectrum.Model.LoopIRWrap Spectrum.Proofs.LoopIRLevinson Spectrum.Proofs.LoopIRCorrelation Spectrum.Proofs.LoopIRAryule.
+Lemma prog_aryule_is_ref : prog_aryule = prog_aryule_ref.
+Proof. reflexivity. Qed.
+(* both dtype tags (the tag is [negb c]), ANY X, order, norm omitted / any string, allow_singularity omitted / given, any oracle values:
+   the run is the model with [conj] replaced by [cj c] ([c = false]: what the float branches of CORRELATION and LEVINSON compute) *)
+Theorem loopir_aryule_model :
+  forall (F : Type) (OF : Ops F) (L : Laws OF) (feq : F -> F -> bool) (stop : Z -> F -> F -> bool)
+         (c : bool) (x : list F) (order : nat) (nm : option string) (allow : option bool) (o1 o2 : F),
+  run feq stop prog_aryule (aryule_args (negb c) x order nm allow o1 o2) =
+  match yw_norm nm with
+  | None => OErr AssertionError
+  | Some cn => yw_outcome (negb c) (garyule c (o1 * o2)%F x order cn (match allow with Some b => b | None => true end))
+  end.
+Proof. intros. rewrite prog_aryule_is_ref. exact (aryule_ir_run feq stop c x order nm allow o1 o2). Qed.
+(* complex dtype: the hand-written model Model.Yule.aryule itself, unconditionally *)
+Theorem loopir_aryule_complex :
+  forall (F : Type) (OF : Ops F) (L : Laws OF) (feq : F -> F -> bool) (stop : Z -> F -> F -> bool)
+         (x : list F) (order : nat) (nm : option string) (allow : option bool) (o1 o2 : F),
+  run feq stop prog_aryule (aryule_args false x order nm allow o1 o2) =
+  match yw_norm nm with
+  | None => OErr AssertionError
+  | Some cn =>
+      match aryule x order cn (match allow with Some b => b | None => true end) with
+      | inr (a, p, k) => ORet [VArr false a; VF p; VArr false k]
+      | inl YAssert => OErr AssertionError
+      | inl YSingular => OErr ValueError
+      end
+  end.
+Proof. intros. rewrite prog_aryule_is_ref. exact (aryule_ir_complex feq stop x order nm allow o1 o2). Qed.
+(* float dtype, real-valued X, allow_singularity=False, a real-valued autocorrelation with a positive lag 0 *)
+Theorem loopir_aryule_real :
+  forall (F : Type) (OF : Ops F) (L : Laws OF) (feq : F -> F -> bool) (stop : Z -> F -> F -> bool)
+         (x : list F) (order : nat) (nm : option string) (o1 o2 : F),
+  (forall j, conj (nthF x j) = nthF x j) ->
+  (forall cn r, yw_norm nm = Some cn -> acorr x order cn = Some r -> (forall j, conj (nthF r j) = nthF r j) /\\ le0 (re (nthF r 0)) = false) ->
+  run feq stop prog_aryule (aryule_args true x order nm (Some false) o1 o2) =
+  match yw_norm nm with
+  | None => OErr AssertionError
+  | Some cn =>
+      match aryule x order cn false with
+      | inr (a, p, k) => ORet [VArr true a; VF p; VArr true k]
+      | inl YAssert => OErr AssertionError
+      | inl YSingular => OErr ValueError
+      end
+  end.
+Proof. intros F OF L feq stop x order nm o1 o2 H1 H2. rewrite prog_aryule_is_ref. exact (aryule_ir_real feq stop x order nm o1 o2 H1 H2). Qed.
+(* hence the boolean of the exact evaluation tie is true for every complex-tagged input, for every reflexive equality test *)
+Theorem loopir_aryule_tie :
+  forall (F : Type) (OF : Ops F) (L : Laws OF) (feq : F -> F -> bool), (forall a, feq a a = true) ->
+  forall (x : list F) (order : nat) (nm : option string) (allow : option bool) (o1 o2 : F),
+  tie_aryule feq prog_aryule false x order nm allow o1 o2 = true.
+Proof. intros. rewrite prog_aryule_is_ref. apply aryule_ir_tie; assumption. Qed.
+Print Assumptions loopir_aryule_model.
+Print Assumptions loopir_aryule_complex.
+Print Assumptions loopir_aryule_real.
+Print Assumptions loopir_aryule_tie.
+"""
+THEOREMS['aryule'] = dict(proof=ARYULE_PROOF, theorems=ARYULE_THEOREMS, block=ARYULE_BLOCK)
+
+
+# ---------------------------------------------------------------- ma: aryule_ir_run composed with itself (T6)
+MA_PROOF = 'Proofs/LoopIRMa.v'
+MA_THEOREMS = ['loopir_ma_model', 'loopir_ma_complex', 'loopir_ma_tie']
+MA_BLOCK = """
+(* The program of ma regenerated on this run - with aryule (and inside it CORRELATION, LEVINSON) embedded twice - is, term for term, the one
+   Proofs/LoopIRMa.v is about: its theorems apply. *)
+Require Import Spectrum.Theory.Ops Spectrum.Theory.Vec Spectrum.Model.Levinson Spectrum.Model.Corr Spectrum.Model.Yule Spectrum.Model.MaEst
+               Spectrum.Model.LoopIRTie Spectrum.Model.LoopIRWrap Spectrum.Proofs.LoopIRAryule Spectrum.Proofs.LoopIRMa.
+Lemma prog_ma_is_ref : prog_ma = prog_ma_ref.
+Proof. reflexivity. Qed.
+(* both dtype tags ([negb c]), ANY X, ANY integers Q, M, any oracle values *)
+Theorem loopir_ma_model :
+  forall (F : Type) (OF : Ops F) (L : Laws OF) (feq : F -> F -> bool) (stop : Z -> F -> F -> bool)
+         (c : bool) (x : list F) (Q M : Z) (o1 o2 o3 o4 : F),
+  run feq stop prog_ma [Some (VArr (negb c) x); Some (VI Q); Some (VI M); Some (VF o1); Some (VF o2); Some (VF o3); Some (VF o4)] =
+  if ((Q <=? 0) || (M <=? Q))%Z then OErr ValueError
+  else ma_outcome (negb c) (gma c (o1 * o2)%F (o3 * o4)%F x (Z.to_nat Q) (Z.to_nat M)).
+Proof. intros. rewrite prog_ma_is_ref. exact (ma_ir_run feq stop c x Q M o1 o2 o3 o4). Qed.
+(* complex dtype: the hand-written model Model.MaEst.ma_est itself *)
+Theorem loopir_ma_complex :
+  forall (F : Type) (OF : Ops F) (L : Laws OF) (feq : F -> F -> bool) (stop : Z -> F -> F -> bool)
+         (x : list F) (Q M : Z) (o1 o2 o3 o4 : F),
+  run feq stop prog_ma [Some (VArr false x); Some (VI Q); Some (VI M); Some (VF o1); Some (VF o2); Some (VF o3); Some (VF o4)] =
+  if ((Q <=? 0) || (M <=? Q))%Z then OErr ValueError
+  else match ma_est x (Z.to_nat Q) (Z.to_nat M) with
+       | inr (b, rho) => ORet [VArr false b; VF rho]
+       | inl MaValue => OErr ValueError
+       | inl MaAssert => OErr AssertionError
+       | inl MaSingular => OErr ValueError
+       end.
+Proof. intros. rewrite prog_ma_is_ref. exact (ma_ir_complex feq stop x Q M o1 o2 o3 o4). Qed.
+Theorem loopir_ma_tie :
+  forall (F : Type) (OF : Ops F) (L : Laws OF) (feq : F -> F -> bool), (forall a, feq a a = true) ->
+  forall (x : list F) (Q M : Z) (o1 o2 o3 o4 : F), tie_ma feq prog_ma false x Q M o1 o2 o3 o4 = true.
+Proof. intros. rewrite prog_ma_is_ref. apply ma_ir_tie; assumption. Qed.
+Print Assumptions loopir_ma_model.
+Print Assumptions loopir_ma_complex.
+Print Assumptions loopir_ma_tie.
+"""
+THEOREMS['ma'] = dict(proof=MA_PROOF, theorems=MA_THEOREMS, block=MA_BLOCK)
+
+
+# ---------------------------------------------------------------- ac2poly, ac2rc: levinson_ir_run through the call (T6)
+AC2_PROOF = 'Proofs/LoopIRAc2.v'
+
+
+def ac2_block(nm, ret):
+    return """
+(* The program of %(nm)s regenerated on this run - with LEVINSON embedded - is, term for term, the one Proofs/LoopIRAc2.v is about. *)
+Require Import Spectrum.Theory.Ops Spectrum.Theory.Vec Spectrum.Model.Levinson Spectrum.Model.LinPred Spectrum.Model.LoopIRTie Spectrum.Model.LoopIRWrap
+               Spectrum.Proofs.LoopIRLevinson Spectrum.Proofs.LoopIRAc2.
+Lemma prog_%(nm)s_is_ref : prog_%(nm)s = prog_%(nm)s_ref.
+Proof. reflexivity. Qed.
+Theorem loopir_%(nm)s_complex :
+  forall (F : Type) (OF : Ops F) (L : Laws OF) (feq : F -> F -> bool) (stop : Z -> F -> F -> bool) (r : list F), r <> [] ->
+  run feq stop prog_%(nm)s [Some (VArr false r)] =
+  match %(nm)s r with Some (a, e) => ORet [VArr false a; VF e] | None => OErr ValueError end.
+Proof. intros. rewrite prog_%(nm)s_is_ref. apply %(nm)s_ir_complex; assumption. Qed.
+Theorem loopir_%(nm)s_real :
+  forall (F : Type) (OF : Ops F) (L : Laws OF) (feq : F -> F -> bool) (stop : Z -> F -> F -> bool) (r : list F), r <> [] ->
+  (forall j, conj (nthF r j) = nthF r j) -> le0 (re (nthF r 0)) = false ->
+  run feq stop prog_%(nm)s [Some (VArr true r)] =
+  match %(nm)s r with Some (a, e) => ORet [VArr true a; VF e] | None => OErr ValueError end.
+Proof. intros. rewrite prog_%(nm)s_is_ref. apply %(nm)s_ir_real; assumption. Qed.
+Theorem loopir_%(nm)s_tie :
+  forall (F : Type) (OF : Ops F) (L : Laws OF) (feq : F -> F -> bool), (forall a, feq a a = true) ->
+  forall (r : list F), r <> [] -> tie_%(nm)s feq prog_%(nm)s false r = true.
+Proof. intros. rewrite prog_%(nm)s_is_ref. apply %(nm)s_ir_tie; assumption. Qed.
+Print Assumptions loopir_%(nm)s_complex.
+Print Assumptions loopir_%(nm)s_real.
+Print Assumptions loopir_%(nm)s_tie.
+""" % dict(nm=nm)
+
+
+for _nm in ('ac2poly', 'ac2rc'):
+    THEOREMS[_nm] = dict(proof=AC2_PROOF, theorems=['loopir_%s_complex' % _nm, 'loopir_%s_real' % _nm, 'loopir_%s_tie' % _nm], block=ac2_block(_nm, None))
+
+
+# ---------------------------------------------------------------- rc2poly: levup_ir_run through the call, induction over the range (T6)
+RC2POLY_PROOF = 'Proofs/LoopIRRc2poly.v'
+RC2POLY_THEOREMS = ['loopir_rc2poly_model', 'loopir_rc2poly_tie']
+RC2POLY_BLOCK = """
+(* The program of rc2poly regenerated on this run - a loop over the embedded levup - is, term for term, the one Proofs/LoopIRRc2poly.v is about. *)
+Require Import Spectrum.Theory.Ops Spectrum.Theory.Vec Spectrum.Model.Levinson Spectrum.Model.LinPred Spectrum.Model.LoopIRTie Spectrum.Model.LoopIRWrap
+               Spectrum.Proofs.LoopIRRc2poly.
+Lemma prog_rc2poly_is_ref : prog_rc2poly = prog_rc2poly_ref.
+Proof. reflexivity. Qed.
+(* ANY reflection coefficients (any dtype tag, the empty sequence included), r0 omitted (= 0) or given, every equality test with 1 == 1 *)
+Theorem loopir_rc2poly_model :
+  forall (F : Type) (OF : Ops F) (L : Laws OF) (feq : F -> F -> bool) (stop : Z -> F -> F -> bool), feq 1%F 1%F = true ->
+  forall (tk : bool) (kr : list F) (r0 : option F),
+  run feq stop prog_rc2poly [Some (VArr tk kr); option_map VF r0] =
+  match rc2poly kr (match r0 with Some z => z | None => 0%F end) with
+  | Some (a, e) => ORet [VArr false a; VF e]
+  | None => OErr IndexError
+  end.
+Proof. intros. rewrite prog_rc2poly_is_ref. apply (rc2poly_ir_run feq stop); assumption. Qed.
+Theorem loopir_rc2poly_tie :
+  forall (F : Type) (OF : Ops F) (L : Laws OF) (feq : F -> F -> bool), (forall a, feq a a = true) ->
+  forall (tk : bool) (kr : list F) (r0 : option F), tie_rc2poly feq prog_rc2poly tk kr r0 = true.
+Proof. intros. rewrite prog_rc2poly_is_ref. apply rc2poly_ir_tie; assumption. Qed.
+Print Assumptions loopir_rc2poly_model.
+Print Assumptions loopir_rc2poly_tie.
+"""
+THEOREMS['rc2poly'] = dict(proof=RC2POLY_PROOF, theorems=RC2POLY_THEOREMS, block=RC2POLY_BLOCK)
+
+
 def reference_text_in(proof, name):
     """the program text of <name> that <proof> was proved about (between its BEGIN/END GENERATED <name> markers)"""
     t = open(os.path.join(vlib.COQ, proof)).read()
@@ -2129,7 +3122,8 @@ def reference_text_in(proof, name):
 TRUSTED_LINE = ("loop-IR tie: the translator tools/props/_loopir.py (Python ast -> IR, fail-closed) and the IR interpreter coq/Model/LoopIR.v "
                 "(semantics of the accepted Python/numpy fragment; arrays by value, no rounding) are trusted; the IR program is regenerated from the "
                 "snapshot source on every run and evaluated exactly (QcC, zero tolerance) against the hand-written model; for LEVINSON, CORRELATION, "
-                "levup, levdown, HERMTOEP, TOEPLITZ, arburg (with and without an order-selection criterion) and the psi loop of minvar `run program = model` is moreover a theorem (for rlevinson and the two Marple recursions: argument checks and orders 0/1) for all inputs (Proofs/LoopIR*.v), "
+                "levup, levdown, HERMTOEP, TOEPLITZ, arburg (with and without an order-selection criterion), the psi loop of minvar and - by composition of the CORRELATION and LEVINSON theorems through the call semantics - the wrappers aryule, ma, ac2poly, ac2rc, rc2poly `run program = model` is moreover a theorem (for rlevinson and the two Marple recursions: argument checks and orders 0/1) for all inputs (Proofs/LoopIR*.v), "
+                "all nine wrappers (aryule, ma, ac2poly, ac2rc, poly2ac, poly2rc, ar2rc, rc2poly, rc2ac) are translated with their callees (functions of other modules of the package, imports resolved syntactically, fail-closed) embedded and evaluated exactly on sampled inputs, "
                 "claimed only while the regenerated program text is the one the proof is about (compared on every run, reflexivity inside Coq)")
 
 
@@ -2139,7 +3133,7 @@ def loopir_tie(ctx, names):
     t0 = time.time()
     info = ctx.extra.setdefault('loopir', {})
     wrong = translator_selftest()
-    info['translator_selftest'] = {'edits_that_must_be_rejected': len(SELFTEST_BAD) + len(SELFTEST2_BAD), 'wrongly_accepted': wrong}
+    info['translator_selftest'] = {'edits_that_must_be_rejected': len(SELFTEST_BAD) + len(SELFTEST2_BAD) + len(SELFTEST3_BAD), 'wrongly_accepted': wrong}
     if wrong:
         ctx.broken.append({'theorem': 'loopir: translator self-test (fail-closed behaviour)', 'where': '_loopir.py', 'log': '; '.join(wrong)})
     progs = {}
@@ -2164,6 +3158,13 @@ def loopir_tie(ctx, names):
         if rc != 0:
             ctx.broken.append({'theorem': 'loopir: build of the interpreter', 'where': 'Model/LoopIRTie.v', 'log': log[-1500:]})
             return
+    for m in sorted(set(EXTRA_MODULES[nm] for nm in progs if nm in EXTRA_MODULES)):
+        t = m.replace('Spectrum.', '').replace('.', '/') + '.vo'
+        if not os.path.exists(os.path.join(vlib.COQ, t)) or os.path.getmtime(os.path.join(vlib.COQ, t)) < os.path.getmtime(os.path.join(vlib.COQ, t[:-1])):
+            rc, log = vlib.make_cone(t)
+            if rc != 0:
+                ctx.broken.append({'theorem': 'loopir: build of the comparators', 'where': t[:-1], 'log': log[-1500:]})
+                return
     defs = ''.join(p.coq() + '\n' for p in progs.values())
     gen = GEN_HEADER + defs; thms = []
     for nm in [n for n in progs if n in THEOREMS]:
